@@ -49,6 +49,8 @@ class Equip:
     def __init__(self):
         self.rig = gemrig.GemRig(init="ONLINE", sub="REMOTE")
         h = self.rig.handler
+        # the library's own AlarmsEnabled / AlarmsSet status variables are kept aside and put back for the requests that ask for them
+        self.alarm_svs = {k: h.status_variables[k] for k in (1004, 1005)}
         h.status_variables.clear()
         h.equipment_constants.clear()
         for i, n, u, v in SV_DEF:
@@ -148,6 +150,19 @@ class Equip:
             else:
                 out = "DNone"
             return (f"(DSetAlarm {idl(op[1])})" if kind == "set_alarm" else f"(DClearAlarm {idl(op[1])})"), out
+        if kind == "alarm_svs":
+            h.status_variables.update(self.alarm_svs)
+            try:
+                r = self.request(1, 3, [1004, 1005])
+            finally:
+                for k in self.alarm_svs:
+                    h.status_variables.pop(k, None)
+            if r is None:
+                out = "DAbort"
+            else:
+                en, st = r.get()
+                out = "(DAlarmLists " + idsl(list(en)) + " " + idsl(list(st)) + ")"
+            return "DReqAlarmSVs", out
         if kind == "update_sv":
             if op[1] in h.status_variables:
                 h.status_variables[op[1]].value = op[2]
@@ -205,8 +220,10 @@ def rand_ops(rnd, n):
             ops.append(("al_enable", rnd.choice(ALIDS + [7]), rnd.choice([True, True, True, True, False, False, 1, 127, 64, 128])))
         elif c < 0.74:
             ops.append(("list_al", id_list(rnd, ALIDS + ([7, 9] if rnd.random() < 0.35 else []))))
-        elif c < 0.80:
+        elif c < 0.78:
             ops.append(("list_enabled", []))
+        elif c < 0.82:
+            ops.append(("alarm_svs",))
         elif c < 0.88:
             ops.append(("set_alarm", rnd.choice(ALIDS + ([7] if rnd.random() < 0.1 else []))))
         elif c < 0.95:
@@ -223,9 +240,9 @@ DIRECTED = [
     # values that are neither below nor above a bound
     [("set_ec", [(10, 20), ("ex", NAN)]), ("req_ec", [10, "ex"]), ("set_ec", [(40, NAN)]), ("set_ec", [(40, 1e300)]), ("set_ec", [("ex", 1e300)]), ("set_ec", [("ex", -1e300)]), ("req_ec", [])],
     [("list_al", []), ("list_enabled", []), ("set_alarm", 1), ("al_enable", 1, True), ("set_alarm", 1), ("clear_alarm", 1), ("set_alarm", 1), ("list_al", [1, 2]), ("list_enabled", []),
-     ("al_enable", 1, False), ("clear_alarm", 1), ("set_alarm", 2), ("al_enable", 2, True), ("clear_alarm", 2), ("clear_alarm", 2), ("al_enable", 7, True), ("list_al", [3, 1, 1])],
+     ("alarm_svs",), ("al_enable", 1, False), ("clear_alarm", 1), ("set_alarm", 2), ("al_enable", 2, True), ("alarm_svs",), ("al_enable", 3, True), ("set_alarm", 3), ("alarm_svs",), ("clear_alarm", 2), ("clear_alarm", 2), ("al_enable", 7, True), ("list_al", [3, 1, 1])],
     # S5F5 naming alarms that do not exist: the known ones are still listed, the unknown ones come back with zero-length ALCD/ALTX
-    [("set_alarm", 2), ("list_al", [7]), ("list_al", [1, 7, 2]), ("list_al", [9, 2, 2, 7]), ("list_al", []), ("list_enabled", [])],
+    [("set_alarm", 2), ("list_al", [7]), ("alarm_svs",), ("list_al", [1, 7, 2]), ("list_al", [9, 2, 2, 7]), ("list_al", []), ("list_enabled", [])],
     # ALED bytes with bit 8 clear disable, whatever the other bits
     [("al_enable", 1, 1), ("list_enabled", []), ("set_alarm", 1), ("al_enable", 2, True), ("al_enable", 2, 127), ("list_enabled", []), ("set_alarm", 2), ("al_enable", 1, 128), ("list_enabled", []), ("clear_alarm", 1)],
 ]
